@@ -111,4 +111,116 @@ def run(chk):
         if r["outcome"] in ("panic", "hang", "other") or r["exit"] not in (0, 1, 2):
             chk.violation("CLI: %s (exit %s) on %s" % (r["outcome"], r["exit"], list(c["files"])[0]),
                           {"concrete": c, "stderr": (r.get("stderr") or "")[-400:]})
+    deep_inputs(chk, quick)
     chk.sample({"family": "c", "soup": ["open", "tag", "nl"], "text": "/*<block>\n"})
+
+
+def deep_text(construct, d):
+    """(file name, text) for one Deep.tla (construct, depth) pair; depth scales the tree constructs by 10."""
+    c_blk = '// <block name="ok">\nx\n// </block>\n'
+    h_blk = '# <block name="ok">\nx\n# </block>\n'
+    x_blk = '<!-- <block name="ok"> -->\n\nx\n\n<!-- </block> -->\n'
+    D = d * 10
+    if construct in ("py_indent", "yaml_map", "md_list", "md_quote", "toml_table", "tagnest"):
+        d = min(d, 3000)          # text size is quadratic in the depth
+    if construct == "chain":
+        return [("chain.py", "TOTAL = " + " + ".join(["1"] * D) + "\n" + h_blk), ("chain.js", "const t = " + " + ".join(["1"] * D) + ";\n" + c_blk),
+                ("chain.rs", "const T: u64 = " + " + ".join(["1"] * D) + ";\n" + c_blk), ("chain.rb", "t = " + " + ".join(["1"] * D) + "\n" + h_blk),
+                ("chain.java", "class A { int t = " + " + ".join(["1"] * D) + "; }\n" + c_blk)]
+    if construct == "brackets":
+        return [("nest.py", "v = " + "[" * D + "]" * D + "\n" + h_blk), ("nest.js", "const v = " + "[" * D + "]" * D + ";\n" + c_blk),
+                ("nest.go", "package p\nvar v = " + "(" * D + "1" + ")" * D + "\n" + c_blk), ("nest.c", "int v = " + "(" * D + "1" + ")" * D + ";\n" + c_blk),
+                ("nest.sql", "SELECT " + "(" * d + "1" + ")" * d + ";\n" + '-- <block name="ok">\nx\n-- </block>\n')]
+    if construct == "markup":
+        return [("nest.html", "<div>" * d + "x" + "</div>" * d + "\n" + x_blk), ("nest.xml", "<r>" * d + "x" + "</r>" * d + "\n" + x_blk)]
+    if construct == "tagnest":
+        return [("tags.rs", "".join('// <block name="d%d">\n' % k for k in range(d)) + "x\n" + "// </block>\n" * d + c_blk)]
+    if construct == "longline":
+        return [("longline.py", "x = '" + "a" * (D * 100) + "'\n" + h_blk)]
+    if construct == "longcomment":
+        return [("longcomment.c", "/* " + "<b " * D + " */\n" + c_blk), ("longcomment.py", "# " + "< " * D + "\n" + h_blk)]
+    if construct == "manycomments":
+        return [("manycomments.sh", "# c\n" * D + h_blk)]
+    if construct == "py_indent":
+        return [("indent.py", "".join(" " * k + "if x:\n" for k in range(d)) + " " * d + "pass\n" + h_blk)]
+    if construct == "html_tags":
+        return [("tags.html", "".join("<t%d>" % k for k in range(d)) + "x" + "".join("</t%d>" % k for k in reversed(range(d))) + "\n" + x_blk)]
+    if construct == "jsx_tags":
+        return [("jsx.tsx", "const e = " + "<a>" * d + "x" + "</a>" * d + ";\n" + c_blk)]
+    if construct == "heredoc_sh":
+        return [("heredoc.sh", "".join("cat <<E%d\n" % k for k in range(d)) + "".join("E%d\n" % k for k in range(d)) + h_blk)]
+    if construct == "heredoc_rb":
+        return [("heredoc.rb", "x = [" + ", ".join("<<~H%d" % k for k in range(d)) + "]\n" + "".join("a\nH%d\n" % k for k in range(d)) + h_blk)]
+    if construct == "rawstr_rs":
+        return [("rawstr.rs", "const S: &str = r" + "#" * d + "\"x\"" + "#" * d + ";\n" + c_blk)]
+    if construct == "rawstr_cpp":
+        return [("rawstr.cpp", "const char* s = R\"" + "d" * d + "(x)" + "d" * d + "\";\n" + c_blk)]
+    if construct == "template_js":
+        return [("template.js", "const t = " + "`${" * d + "1" + "}`" * d + ";\n" + c_blk)]
+    if construct == "interp_kt":
+        return [("interp.kt", "val s = " + "\"${" * d + "1" + "}\"" * d + "\n" + c_blk)]
+    if construct == "interp_swift":
+        return [("interp.swift", "let s = " + "\"\\(" * d + "1" + ")\"" * d + "\n" + c_blk)]
+    if construct == "interp_cs":
+        return [("interp.cs", "var s = " + "$\"{" * d + "1" + "}\"" * d + ";\n" + c_blk)]
+    if construct == "css_nest":
+        return [("nest.css", "a {" * d + "}" * d + "\n/* <block name=\"ok\"> */\nx\n/* </block> */\n")]
+    if construct == "toml_table":
+        dd = min(d, 300)
+        return [("table.toml", "".join("[" + ".".join("t%d" % j for j in range(k + 1)) + "]\n" for k in range(dd)) + h_blk)]
+    if construct == "yaml_flow":
+        return [("flow.yaml", "v: " + "[" * d + "]" * d + "\n" + h_blk)]
+    if construct == "yaml_map":
+        return [("nest.yaml", "".join(" " * k + "k%d:\n" % k for k in range(d)) + h_blk),
+                ("nest.yml", "".join(" " * k + "- \n" for k in range(d)) + h_blk)]
+    if construct == "md_quote":
+        return [("quote.md", "> " * d + "x\n\n" + x_blk), ("quote.markdown", "".join("> " * (k + 1) + "x\n" for k in range(d)) + "\n" + x_blk)]
+    if construct == "md_list":
+        return [("list.md", "".join("  " * k + "- a\n" for k in range(d)) + "\n" + x_blk)]
+    raise ValueError(construct)
+
+
+def deep_inputs(chk, quick):
+    """Deep.tla: every (construct, depth) pair through the real process (main-thread stack) in list, scan and diff
+    mode.  A crash is attributed to finding DP1 only where the as-coded model predicts the abort AND the process
+    died in tree-sitter's scanner-state assertion; every other crash is a violation."""
+    depths = "{1, 50, 200, 253, 254, 500, 3000, 20000}" if quick else "{1, 2, 50, 200, 252, 253, 254, 255, 256, 500, 3000, 20000, 100000}"
+    res = vlib.run_tlc("MC_Deep", cfg_text=rc.set_consts("MC_Deep", Depths=depths), timeout=600, heap="2g")
+    chk.add_tlc(res, "MC_Deep (as coded)")
+    fixed = vlib.run_tlc("MC_Deep", cfg_text=rc.set_consts("MC_DeepFixed", Depths=depths), timeout=600, heap="2g")
+    chk.add_tlc(fixed, "MC_Deep (FixDP1: contract holds)")
+    cases, meta = [], {}
+    for ci, c in enumerate(res.cases):
+        for (name, text) in deep_text(c["construct"], c["depth"]):
+            for mode in ("list", "scan", "diff"):
+                case = {"id": "deep-%s-%d-%s-%s" % (c["construct"], c["depth"], name, mode), "files": {name: text}, "diff": None,
+                        "args": [], "terminal": True}
+                if mode == "list":
+                    case["args"] = ["list"]
+                elif mode == "diff":
+                    last = text.count("\n")
+                    case.update(terminal=False, diff="diff --git a/%s b/%s\n--- a/%s\n+++ b/%s\n@@ -%d +%d @@\n-y\n+x\n" % (
+                        name, name, name, name, last - 1, last - 1))
+                cases.append(case)
+                meta[case["id"]] = c
+    cres = vlib.run_cli(cases, timeout=180, nthreads=6)
+    listed = 0
+    for case in cases:
+        c = meta[case["id"]]
+        r = cres[case["id"]]
+        chk.evaluations += 1
+        chk.nontrivial_count += c["depth"] > 1
+        small = dict(case, files={k: v[:120] + "...(%d bytes)" % len(v) for k, v in case["files"].items()})
+        crashed = r["outcome"] in ("panic", "hang", "other", "abort") or r["exit"] not in (0, 1, 2)
+        if crashed:
+            scanner_abort = "ts_parser__external_scanner_serialize" in (r.get("stderr") or "")
+            chk.violation("deep input %s: %s (exit %s)%s" % (case["id"], r["outcome"], r["exit"],
+                                                            " in tree-sitter's scanner-state assertion" if scanner_abort else ""),
+                          {"abstract": c, "regenerate": "tools/props/c04.py deep_text(%r, %d)" % (c["construct"], c["depth"]),
+                           "concrete_excerpt": small, "stderr": (r.get("stderr") or "")[-400:]},
+                          explained_by=("DP1",) if (c["ascoded"] == "abort" and scanner_abort) else ())
+        elif c["ascoded"] == "abort":
+            chk.drift += 1        # the as-coded model predicted the abort and the real run survived
+        elif case["args"] == ["list"] and r["outcome"] == "ok":
+            listed += "ok" in [b["name"] for b in (r["list"] or {}).get(list(case["files"])[0], [])]
+    chk.notes["deep_inputs"] = {"pairs": len(res.cases), "runs": len(cases), "list_runs_that_found_the_trailing_block": listed}
